@@ -208,6 +208,11 @@ class BitStringPayloadDecoder(AbstractSimplePayloadDecoder):
                     'Trailing bits overflow %s' % trailingBits
                 )
 
+            if trailingBits and length == 1:
+                raise error.PyAsn1Error(
+                    'Unused bits %s in an empty BIT STRING' % trailingBits
+                )
+
             for chunk in readFromStream(substrate, length - 1, options):
                 if isinstance(chunk, SubstrateUnderrunError):
                     yield chunk
@@ -247,6 +252,11 @@ class BitStringPayloadDecoder(AbstractSimplePayloadDecoder):
             if trailingBits > 7:
                 raise error.PyAsn1Error(
                     'Trailing bits overflow %s' % trailingBits
+                )
+
+            if trailingBits and len(component) == 1:
+                raise error.PyAsn1Error(
+                    'Unused bits %s in an empty BIT STRING fragment' % trailingBits
                 )
 
             bitString = self.protoComponent.fromOctetString(
@@ -296,6 +306,11 @@ class BitStringPayloadDecoder(AbstractSimplePayloadDecoder):
             if trailingBits > 7:
                 raise error.PyAsn1Error(
                     'Trailing bits overflow %s' % trailingBits
+                )
+
+            if trailingBits and len(component) == 1:
+                raise error.PyAsn1Error(
+                    'Unused bits %s in an empty BIT STRING fragment' % trailingBits
                 )
 
             bitString = self.protoComponent.fromOctetString(
